@@ -160,6 +160,12 @@ theorem intPow_nat (a : Int) (n : Nat) : Py.intPow a (n : Int) = .ok (a ^ n) := 
 theorem intFloordiv_two (a : Int) : Py.intFloordiv a 2 = .ok (a / 2) := by
   simp [Py.intFloordiv, Int.fdiv_eq_ediv_of_nonneg]
 
+theorem intShr_nonneg (a n : Int) (h : 0 ≤ n) : Py.intShr a n = .ok (a / 2 ^ n.toNat) := by
+  simp [Py.intShr, not_lt.mpr h, Int.shiftRight_eq_div_pow]
+
+theorem intShr_one (a : Int) : Py.intShr a 1 = .ok (a / 2) := by
+  simpa using intShr_nonneg a 1 (by decide)
+
 theorem shl_cast (n : Nat) : (((1 <<< n : Nat) : Nat) : Int) = 2 ^ n := by
   simp [Nat.one_shiftLeft]
 
@@ -170,13 +176,22 @@ theorem uint_range (n : Nat) (cm : Option Py.CastMode) :
     intShl_nat, intPow_nat, uintRange, shl_cast, one_mul] <;>
   first
   | rfl
-  | (congr 2 <;> (push_cast; ring_nf))
+  | (congr 2 <;> (push_cast; ring_nf); done)
+  | (-- spellings that test the sign of `2 ^ n - 1` (never negative)
+     have hp : (1 : Int) ≤ 2 ^ n := one_le_pow₀ (by norm_num)
+     have h1 : (0 : Int) ≤ 2 ^ n - 1 := by omega
+     have h2 : (0 : Int) ≤ -1 + 2 ^ n := by omega
+     have h3 : ¬ ((2 : Int) ^ n - 1 < 0) := by omega
+     have h4 : ¬ (-1 + (2 : Int) ^ n < 0) := by omega
+     have h5 : ¬ ((2 : Int) ^ n < 1) := by omega
+     simp [h1, h2, h3, h4, h5, hp]
+     try (congr 2 <;> (push_cast; ring_nf)))
 
 theorem int_range (n : Nat) (cm : Option Py.CastMode) :
     Gen.Cst.SignedIntegerType.inclusive_value_range { bit_length := some (n : Int), cast_mode := cm } =
       .ok ((((intRange n).1 : Int) : Rat), (((intRange n).2 : Int) : Rat)) := by
   simp only [Gen.Cst.SignedIntegerType.inclusive_value_range, Gen.Cst.PrimitiveType.bit_length, attr_some, ok_bind, pure_eq_ok,
-    intShl_nat, intPow_nat, intFloordiv_two, intRange, shl_cast, one_mul] <;>
+    intShl_nat, intPow_nat, intFloordiv_two, intShr_one, intRange, shl_cast, one_mul] <;>
   first
   | rfl
   | (congr 2 <;> (push_cast; ring_nf))
